@@ -300,9 +300,307 @@ def special (inner : Inner) (mode : Mode) (c : Nat) (name : String) (args : List
 def runInner (mode : Mode) (c : Nat) (sig : Sig) (raw : List Bytes) : M (Option Reply) :=
   runWith (special (fun _ _ => do fault "nested exec"; return none)) mode c sig raw false
 
+/-- ASCII lower-casing of the command name; `none` when the name cannot denote a command -/
+def commandName (b : Bytes) : Option String :=
+  if b.all (fun c => c < 128) then some (bytesStr (b.map lowerByte)) else none
+
+def unknownCommandPrefix : String := "ERR unknown command '"
+
+/-! ## Scripts (EVAL / EVALSHA / SCRIPT)
+
+The Lua host is external.  The harness records, as hints, what the host did: the SHA-1 of the source, every
+`redis.call` / `redis.pcall` invocation with its Lua arguments and the value the bridge returned to Lua, and the
+script's final Lua value (or Lua error).  The model re-executes every invocation with the very runner used for
+direct commands (`from_script = True`), converts arguments and results by the code's tables, checks that it
+computes the same value the host was given, and converts the final value to a reply. -/
+
+inductive LuaVal where
+  | nil | bool (b : Bool) | int (n : Int) | flt (d : Dbl) | str (b : Bytes) | pystr (b : Bytes)
+  | table (arr : List LuaVal) (hash : List (Bytes × LuaVal))
+  deriving Repr, Inhabited
+
+namespace LuaVal
+
+mutual
+def ser : LuaVal → Bytes
+  | .nil => [78] | .bool true => [84] | .bool false => [70]
+  | .int n => 73 :: intBytes n ++ [59]
+  | .flt d => 68 :: natDigits d.toBits.toNat ++ [59]
+  | .str b => 83 :: strBytes (toHex b) ++ [59]
+  | .pystr b => 85 :: strBytes (toHex b) ++ [59]
+  | .table arr hash => 123 :: serList arr ++ 124 :: serHash hash ++ [125]
+def serList : List LuaVal → Bytes
+  | [] => []
+  | [x] => ser x
+  | x :: xs => ser x ++ 44 :: serList xs
+def serHash : List (Bytes × LuaVal) → Bytes
+  | [] => []
+  | [(k, v)] => strBytes (toHex k) ++ 61 :: ser v
+  | (k, v) :: rest => strBytes (toHex k) ++ 61 :: ser v ++ 44 :: serHash rest
+end
+
+def takeUntil (c : UInt8) : Bytes → Bytes × Bytes
+  | [] => ([], [])
+  | x :: xs => if x == c then ([], xs) else let (a, b) := takeUntil c xs; (x :: a, b)
+
+/-- recursive-descent parser of `ser` with fuel -/
+def parse : Nat → Bytes → Option (LuaVal × Bytes)
+  | 0, _ => none
+  | fuel + 1, b =>
+    match b with
+    | 78 :: r => some (.nil, r)
+    | 84 :: r => some (.bool true, r)
+    | 70 :: r => some (.bool false, r)
+    | 73 :: r => let (d, r') := takeUntil 59 r; (parseCanonInt d).map fun n => (.int n, r')
+    | 68 :: r => let (d, r') := takeUntil 59 r
+      if d.all isDigit && !d.isEmpty then some (.flt (Dbl.ofBits (UInt64.ofNat (digitsVal d))), r') else none
+    | 83 :: r => let (d, r') := takeUntil 59 r; (fromHex (bytesStr d)).map fun x => (.str x, r')
+    | 85 :: r => let (d, r') := takeUntil 59 r; (fromHex (bytesStr d)).map fun x => (.pystr x, r')
+    | 123 :: r =>
+      let rec arrLoop (f : Nat) (b : Bytes) (acc : List LuaVal) : Option (List LuaVal × Bytes) :=
+        match f with
+        | 0 => none
+        | f' + 1 =>
+          match b with
+          | 124 :: r => some (acc.reverse, r)
+          | 44 :: r => arrLoop f' r acc
+          | _ => match parse fuel b with
+            | some (v, r) => arrLoop f' r (v :: acc)
+            | none => none
+      let rec hashLoop (f : Nat) (b : Bytes) (acc : List (Bytes × LuaVal)) : Option (List (Bytes × LuaVal) × Bytes) :=
+        match f with
+        | 0 => none
+        | f' + 1 =>
+          match b with
+          | 125 :: r => some (acc.reverse, r)
+          | 44 :: r => hashLoop f' r acc
+          | _ =>
+            let (k, r) := takeUntil 61 b
+            match fromHex (bytesStr k), parse fuel r with
+            | some k', some (v, r') => hashLoop f' r' ((k', v) :: acc)
+            | _, _ => none
+      match arrLoop (b.length + 1) r [] with
+      | some (arr, r1) => (hashLoop (b.length + 1) r1 []).map fun (h, r2) => (.table arr h, r2)
+      | none => none
+    | _ => none
+
+def ofBytes (b : Bytes) : Option LuaVal :=
+  match parse (b.length + 1) b with
+  | some (v, []) => some v
+  | _ => none
+
+end LuaVal
+
+/-- `_convert_redis_arg` -/
+def luaToArg (version : Nat) : LuaVal → Except Err Bytes
+  | .str b => .ok b
+  | .int n => .ok (strBytes (Dbl.fmtG17 (Dbl.ofInt n)))
+  | .flt d => .ok (strBytes (Dbl.fmtG17 d))
+  | _ => .error (if version < 7 then Msgs.LUA_COMMAND_ARG_MSG6 else Msgs.LUA_COMMAND_ARG_MSG)
+
+mutual
+/-- `_convert_redis_result` -/
+def replyToLua : Reply → Except Err LuaVal
+  | .bulk b => .ok (.str b)
+  | .int n => .ok (.int n)
+  | .status s => .ok (.table [] [(strBytes "ok", .str s)])
+  | .nil => .ok (.bool false)
+  | .err e => .error (bytesStr e)
+  | .arr xs => (repliesToLua xs).map fun l => .table l []
+def repliesToLua : List Reply → Except Err (List LuaVal)
+  | [] => .ok []
+  | x :: xs =>
+    match replyToLua x with
+    | .error e => .error e
+    | .ok v => (repliesToLua xs).map (v :: ·)
+end
+
+/-- `_convert_lua_result` (fuel bounds the nesting depth of the Lua value) -/
+def luaToReplyF : Nat → Bool → LuaVal → Except Err Reply
+  | 0, _, _ => .error "model: lua value nested too deeply"
+  | fuel + 1, nested, v =>
+    match v with
+    | .table arr hash =>
+      match hash.lookup (strBytes "ok") with
+      | some v =>
+        match luaToReplyF fuel true v with
+        | .ok (.bulk m) => .ok (.status m)
+        | .ok _ => .error Msgs.LUA_WRONG_NUMBER_ARGS_MSG
+        | .error e => .error e
+      | none =>
+        match hash.lookup (strBytes "err") with
+        | some v =>
+          match luaToReplyF fuel true v with
+          | .ok (.bulk m) => if nested then .ok (.err m) else .error (bytesStr m)
+          | .ok _ => .error Msgs.LUA_WRONG_NUMBER_ARGS_MSG
+          | .error e => .error e
+        | none => (arr.mapM (luaToReplyF fuel true)).map .arr
+    | .pystr b => .ok (.bulk b)
+    | .str b => .ok (.bulk b)
+    | .flt d => .ok (.int d.truncToInt)
+    | .bool true => .ok (.int 1)
+    | .bool false => .ok .nil
+    | .int n => .ok (.int n)
+    | .nil => .ok .nil
+
+def luaToReply (nested : Bool) (v : LuaVal) : Except Err Reply := luaToReplyF 200 nested v
+
+def nextPick : M (Option (List Bytes)) := do
+  let s ← get
+  match s.picks with
+  | p :: rest => set { s with picks := rest }; return some p
+  | [] => return none
+
+def scriptErrorMsg (sha : Bytes) (msg : String) : String :=
+  "ERR Error running script (call to f_" ++ bytesStr sha ++ "): @user_script:?: " ++ msg
+
+/-- the nested `_run_command(func, sig, args, True)` of a script call -/
+def runFromScript (special : Mode → Nat → String → List Arg → List CI → M (Except Err (Option Reply × List CI)))
+    (mode : Mode) (c : Nat) (op : LuaVal) (args : List LuaVal) : M (Except Err LuaVal) := do
+  let version := (← get).srv.version
+  match op with
+  | .str nameB =>
+    let sig? : Option Sig := match commandName nameB with
+      | some n => if n.startsWith "_" then none else SigTable.find n
+      | none => none
+    match sig? with
+    | none => return .error unknownCommandPrefix
+    | some sig =>
+      match args.mapM (luaToArg version) with
+      | .error e => return .error e
+      | .ok raw =>
+        match ← runWith special mode c sig raw true with
+        | none => return .error "model: NoResponse from a script call"
+        | some r => return replyToLua r
+  | _ => return .error "model: script call with a non-string command name"
+
+/-- interpret the recorded trace of one script run; returns the reply or the error of EVAL -/
+def runTrace (special : Mode → Nat → String → List Arg → List CI → M (Except Err (Option Reply × List CI)))
+    (mode : Mode) (c : Nat) (sha : Bytes) : Nat → M (Except Err Reply)
+  | 0 => do fault "script trace too long"; return .error "model: script trace"
+  | fuel + 1 => do
+    let version := (← get).srv.version
+    match ← nextPick with
+    | none => fault "script trace ended without a result"; return .error "model: script trace"
+    | some p =>
+      match p with
+      | tag :: rest =>
+        if tag == strBytes "return" then
+          match rest with
+          | [v] =>
+            match LuaVal.ofBytes v with
+            | some lv => return luaToReply false lv
+            | none => fault "bad lua value in hint"; return .error "model: script trace"
+          | _ => fault "bad return hint"; return .error "model: script trace"
+        else if tag == strBytes "luaerror" then
+          return .error (scriptErrorMsg sha (bytesStr (rest.headD [])))
+        else if tag == strBytes "globals" then
+          return .error (bytesStr (rest.headD []))
+        else if tag == strBytes "call" || tag == strBytes "pcall" then
+          match rest with
+          | globalsMsg :: opB :: argBs =>
+            match LuaVal.ofBytes opB, argBs.mapM LuaVal.ofBytes with
+            | some op, some args =>
+              -- `_check_for_lua_globals` runs first; its verdict is the host's business and comes with the hint
+              let res ← if globalsMsg.isEmpty then runFromScript special mode c op args
+                        else pure (.error (bytesStr globalsMsg))
+              -- what the host saw
+              match ← nextPick with
+              | some [t, v] =>
+                if t == strBytes "ret" then
+                  match res with
+                  | .ok lv =>
+                    if lv.ser != v then fault "script call returned a different value to Lua"
+                    runTrace special mode c sha fuel
+                  | .error _ => fault "script call should have raised"; return .error "model: script trace"
+                else if t == strBytes "exc" then
+                  match res with
+                  | .error e =>
+                    let e' := if e == unknownCommandPrefix && (bytesStr v).startsWith unknownCommandPrefix then bytesStr v else e
+                    if strBytes e' != v then fault "script call raised a different error"
+                    if tag == strBytes "pcall" then runTrace special mode c sha fuel
+                    else return .error (if version == 6 then scriptErrorMsg sha e' else e')
+                  | .ok _ => fault "script call should have returned"; return .error "model: script trace"
+                else fault "bad outcome hint"; return .error "model: script trace"
+              | _ => fault "missing outcome hint"; return .error "model: script trace"
+            | _, _ => fault "bad lua value in call hint"; return .error "model: script trace"
+          | _ => fault "bad call hint"; return .error "model: script trace"
+        else fault "unknown script hint"; return .error "model: script trace"
+      | [] => fault "empty script hint"; return .error "model: script trace"
+
+def shaHint : M (Option Bytes) := do
+  match ← nextPick with
+  | some [t, h] => if t == strBytes "sha" then return some h else return none
+  | _ => return none
+
+def evalBody (special : Mode → Nat → String → List Arg → List CI → M (Except Err (Option Reply × List CI)))
+    (mode : Mode) (c : Nat) (script : Bytes) (numkeys : Int) (rest : List Bytes) : M (Except Err Reply) := do
+  match ← shaHint with
+  | none => fault "eval: sha hint missing"; return .error "model: bad hint"
+  | some sha =>
+    if numkeys > rest.length then return .error Msgs.TOO_MANY_KEYS_MSG
+    if numkeys < 0 then return .error Msgs.NEGATIVE_KEYS_MSG
+    modify fun s => { s with srv := { s.srv with scripts := ZSet.dictSet s.srv.scripts sha script } }
+    runTrace special mode c sha 100000
+
+/-- the three script commands -/
+def scriptBody (special : Mode → Nat → String → List Arg → List CI → M (Except Err (Option Reply × List CI)))
+    (mode : Mode) (c : Nat) (name : String) (args : List Arg) : M (Except Err Reply) := do
+  let version := (← get).srv.version
+  match name, args with
+  | "eval", .raw script :: .int numkeys :: rest => evalBody special mode c script numkeys (Cmd.rawArgs rest)
+  | "evalsha", .raw sha :: .int numkeys :: rest =>
+    match (← get).srv.scripts.lookup sha with
+    | none => return .error Msgs.NO_MATCHING_SCRIPT_MSG
+    | some script => evalBody special mode c script numkeys (Cmd.rawArgs rest)
+  | "script", .raw sub :: rest =>
+    let raw := Cmd.rawArgs rest
+    if casematch sub "load" then
+      match raw with
+      | [script] =>
+        match ← shaHint with
+        | none => fault "script load: sha hint missing"; return .error "model: bad hint"
+        | some sha =>
+          modify fun s => { s with srv := { s.srv with scripts := ZSet.dictSet s.srv.scripts sha script } }
+          return .ok (.bulk sha)
+      | _ => return .error (Msgs.fmt1 Msgs.BAD_SUBCOMMAND_MSG "SCRIPT")
+    else if casematch sub "exists" then
+      if version ≥ 7 && raw.isEmpty then return .error (Msgs.fmt1 Msgs.WRONG_ARGS_MSG "script|exists")
+      let cache := (← get).srv.scripts
+      return .ok (.arr (raw.map fun h => .int (if (cache.lookup h).isSome then 1 else 0)))
+    else if casematch sub "flush" then
+      if raw.length > 1 || (raw.length == 1 && casenorm (raw.headD []) != strBytes "sync" && casenorm (raw.headD []) != strBytes "async") then
+        return .error (Msgs.fmt1 Msgs.BAD_SUBCOMMAND_MSG "SCRIPT")
+      modify fun s => { s with srv := { s.srv with scripts := [] } }
+      return .ok .ok
+    else return .error (Msgs.fmt1 Msgs.BAD_SUBCOMMAND_MSG "SCRIPT")
+  | _, _ => return .error "model: bad args"
+
+def scriptNames : List String := ["eval", "evalsha", "script"]
+
+/-- `_run_command` of a script command issued directly by the client -/
+def runScriptCmd (mode : Mode) (c : Nat) (sig : Sig) (raw : List Bytes) (fromScript : Bool) : M (Option Reply) := do
+  let conn ← getConn c
+  let db ← getDb conn.db
+  let (db', res) := sig.apply raw db
+  setDb conn.db db'
+  match res with
+  | .error e => return some (.err (strBytes e))
+  | .ok (.short r) => return some r
+  | .ok (.ok args _) =>
+    match runGate sig fromScript (conn.pubsub > 0) with
+    | some e => return some (.err (strBytes e))
+    | none =>
+      match ← scriptBody (special (fun _ _ => do fault "nested exec"; return none)) mode c sig.name args with
+      | .ok r => return some r
+      | .error e =>
+        if e.startsWith "model:" then fault e
+        return some (.err (strBytes e))
+
 /-- `_run_command` for a command issued by the client -/
 def runCommand (mode : Mode) (c : Nat) (sig : Sig) (raw : List Bytes) (fromScript : Bool) : M (Option Reply) :=
-  runWith (special (runInner mode c)) mode c sig raw fromScript
+  if scriptNames.contains sig.name then runScriptCmd mode c sig raw fromScript
+  else runWith (special (runInner mode c)) mode c sig raw fromScript
 
 /-- `_cleanup` of every socket on `closed_sockets` -/
 def cleanupClosed : M Unit := do
@@ -313,12 +611,6 @@ def cleanupClosed : M Unit := do
       psubs := s.srv.psubs.map (fun p => (p.1, p.2.filter (· != c))) } }
     clearWatches c
   modify fun s => { s with srv := { s.srv with closedSockets := [] } }
-
-/-- ASCII lower-casing of the command name; `none` when the name cannot denote a command -/
-def commandName (b : Bytes) : Option String :=
-  if b.all (fun c => c < 128) then some (bytesStr (b.map lowerByte)) else none
-
-def unknownCommandPrefix : String := "ERR unknown command '"
 
 /-- `_process_command` -/
 def processCommand (mode : Mode) (c : Nat) (fields : List Bytes) : M Unit := do
